@@ -428,6 +428,12 @@ func runCLI(sc *scenario, root string, _ api.BuildOptions, errsAtEnd *int) api.B
 		if strings.HasPrefix(a, "--metafile=") {
 			dry.OutputFiles = append(dry.OutputFiles, api.OutputFile{Path: filepath.Join(root, a[len("--metafile="):]), Contents: []byte(dry.Metafile), Hash: "metafile"})
 		}
+		if strings.HasPrefix(a, "--mangle-cache=") {
+			// also written by the CLI itself; its contents are whatever the CLI serialised
+			mp := filepath.Join(root, a[len("--mangle-cache="):])
+			b, _ := os.ReadFile(mp)
+			dry.OutputFiles = append(dry.OutputFiles, api.OutputFile{Path: mp, Contents: b, Hash: "metafile"})
+		}
 	}
 	return dry
 }
@@ -560,6 +566,10 @@ func oracle(sc *scenario, root string, i int, ob *stepObs, st *Stats, write, all
 			a, oka := after.files[p]
 			if okb && (!oka || !bytes.Equal(a, b)) {
 				kind, tag := "input-overwritten", ""
+				if !oka && own[p] {
+					// a stale output of the previous build that is an input of this build
+					kind, tag = "input-deleted-by-successful-rebuild", "stale-output-that-is-an-input-deleted"
+				}
 				if len(sc.symlinks) > 0 {
 					kind, tag = "input-overwritten-via-symlink", "symlink-aliases-input-file" // known finding G
 				}
@@ -787,7 +797,7 @@ func genCollision(r *Rng, idx int) *scenario {
 	if r.Chance(10) {
 		sc.steps[0].onEndErr = true
 	}
-	k := idx % 14
+	k := idx % 15
 	var o api.BuildOptions
 	switch k {
 	case 0: // outdir equal to the source directory, same extension
@@ -863,6 +873,12 @@ func genCollision(r *Rng, idx int) *scenario {
 		sc.files["/src/dep.js"] = jsBody("dep", 1)
 		o = api.BuildOptions{Stdin: &api.StdinOptions{Contents: "import './dep.js'\n", ResolveDir: "src", Sourcefile: "in.js"}, Outfile: "src/dep.js", Bundle: true}
 		sc.desc = "stdin imports ./dep.js outfile=src/dep.js bundle"
+	case 14: // an entry outside outbase: its output must stay inside outdir
+		sc.files["/src/a.js"] = jsBody("a", 1)
+		sc.files["/other/b.js"] = jsBody("b", 1)
+		sc.files["/c.js"] = jsBody("c", 1)
+		o = api.BuildOptions{EntryPoints: []string{"src/a.js", "other/b.js", "c.js"}, Outdir: "out", Outbase: "src"}
+		sc.desc = "entries src/a.js other/b.js c.js outbase=src outdir=out"
 	}
 	o.Write = write
 	o.AllowOverwrite = allow
@@ -899,6 +915,20 @@ func fixedScenarios() []*scenario {
 	}
 	f2.steps = []stepSpec{{label: "build"}, {label: "syntax-error", edits: []edit{{"/src/a.js", sp("let = = ;\n")}}}}
 	out = append(out, f2)
+	f3 := &scenario{kind: "finding-F2", useCtx: true, files: map[string]string{"/src/a.js": "console.log(1)\n", "/src/old.js": "console.log(2)\n"},
+		desc: "ctx entries src/*.js outdir=out bundle write=true"}
+	f3.opts = func(string) api.BuildOptions {
+		return api.BuildOptions{EntryPoints: []string{"src/*.js"}, Outdir: "out", Bundle: true, Write: true}
+	}
+	f3.steps = []stepSpec{{label: "build"}, {label: "remove-entry+import-previous-output", edits: []edit{{"/src/old.js", nil}, {"/src/a.js", sp("import '../out/old.js'\n")}}}}
+	out = append(out, f3)
+	// I: on-end failure after the write phase
+	oe := &scenario{kind: "finding-I", files: map[string]string{"/src/a.js": "console.log(1)\n"}, desc: "entry src/a.js outdir=out write=true, on-end plugin returns an error"}
+	oe.opts = func(string) api.BuildOptions {
+		return api.BuildOptions{EntryPoints: []string{"src/a.js"}, Outdir: "out", Write: true}
+	}
+	oe.steps = []stepSpec{{label: "build", onEndErr: true}}
+	out = append(out, oe)
 	// G: symbolic links
 	g := &scenario{kind: "finding-G", files: map[string]string{"/src/a.js": "export let a = 1 // ORIGINAL\n"},
 		symlinks: [][2]string{{"/out", "src"}}, dirLinks: [][2]string{{"/out", "/src"}}, desc: "entry src/a.js outdir=out where out -> src (symlink)"}
@@ -932,11 +962,12 @@ func fixedScenarios() []*scenario {
 		{"src/bad.js", "--outdir=out", "--metafile=meta.json"},
 		{"src/a.js", "src/b.js", "--outdir=src"},
 		{"src/a.js", "--outdir=src", "--out-extension:.js=.mjs", "--mangle-props=_$", "--mangle-cache=cache.json"},
+		{"src/bad.js", "--outdir=out", "--mangle-props=_$", "--mangle-cache=cache.json", "--metafile=meta.json"},
 	}
 	for _, args := range cliCases {
 		args := args
 		c := &scenario{kind: "cli", viaCLI: args, desc: "esbuild " + strings.Join(args, " "),
-			files: map[string]string{"/src/a.js": "import './b.js'\nconsole.log('a', {x_: 1})\n", "/src/b.js": "console.log('b')\n", "/src/bad.js": "let = = ;\n", "/out/keep.txt": "keep"}}
+			files: map[string]string{"/src/a.js": "import './b.js'\nconsole.log('a', {x_: 1})\n", "/src/b.js": "console.log('b')\n", "/src/bad.js": "let = = ;\n", "/out/keep.txt": "keep", "/cache.json": "{}"}}
 		for _, a := range args {
 			if a == "--allow-overwrite" {
 				c.desc += " (allow)"
@@ -1085,6 +1116,48 @@ func fmtOut(fs []graph.OutputFile) []string {
 	return out
 }
 
+// validateBuildOptions through the public API: is an output on an input refused?
+func allowCases(st *Stats) []string {
+	var items []string
+	for _, useCtx := range []bool{false, true} {
+		for _, write := range []bool{false, true} {
+			for _, allow := range []bool{false, true} {
+				tmp, err := os.MkdirTemp("", "verif-c17-")
+				if err != nil {
+					panic(err)
+				}
+				root, _ := filepath.EvalSymlinks(tmp)
+				os.MkdirAll(root+"/src", 0o755)
+				os.WriteFile(root+"/src/a.js", []byte("console.log(1)\n"), 0o644)
+				o := api.BuildOptions{AbsWorkingDir: root, EntryPoints: []string{"src/a.js"}, Outdir: "src", Write: write, AllowOverwrite: allow, LogLevel: api.LogLevelSilent}
+				var res api.BuildResult
+				if useCtx {
+					ctx, cerr := api.Context(o)
+					if cerr != nil {
+						panic(cerr.Error())
+					}
+					res = ctx.Rebuild()
+					ctx.Dispose()
+				} else {
+					res = api.Build(o)
+				}
+				refused := false
+				for _, e := range res.Errors {
+					refused = refused || strings.Contains(e.Text, "Refusing to overwrite input file")
+				}
+				b, _ := os.ReadFile(root + "/src/a.js")
+				if !allow && string(b) != "console.log(1)\n" {
+					st.Fail("input-overwritten", map[string]interface{}{"scenario": "none", "options": fmt.Sprintf("entry src/a.js outdir=src write=%v allowOverwrite=%v ctx=%v", write, allow, useCtx)}, string(b), "src/a.js unchanged")
+				}
+				os.RemoveAll(tmp)
+				st.Note("allow-matrix", fmt.Sprint(useCtx, write, allow), true)
+				items = append(items, fmt.Sprintf("(%s,%s,%s)", CBool(write), CBool(allow), CBool(refused)))
+			}
+		}
+	}
+	return items
+}
+
 // ---------------------------------------------------------------- main
 
 func runC17(seed uint64, n int, tier string, outDir string) []*Stats {
@@ -1099,6 +1172,7 @@ func runC17(seed uint64, n int, tier string, outDir string) []*Stats {
 		comp = append(comp, compileCase(r, st, enc))
 	}
 	cf.AddCases("compile_cases", "compile_case", "check_compile", comp)
+	cf.AddCases("allow_cases", "bool * bool * bool", "check_allow", allowCases(st))
 
 	var hist []string
 	add := func(sc *scenario) {
